@@ -20,10 +20,10 @@ add("C06", "proof", "the merge obligation `ext(merged,T) = ext(ops2, ext(ops1,T)
     PYVC_TB + "; ghost semantics: simultaneous-assignment extend, ev(e,T) depends only on cols(e) ∪ window columns (frame axiom)", "contract-based deductive verification: VCs generated from the real AST, discharged by z3/cvc5; counter-models replayed natively", "§5 C06")
 add("C08", "other", HYB + "PROVED for all inputs: Pandas and Polars _table_step always narrow/order the input to the declared columns (eager or lazy, extra or permuted input columns), _select_columns_step and _rename_columns_step hand the library exactly the node's arguments; BOUNDED: declared columns = returned columns at every node of every enumerated pipeline on Pandas, Polars, SQLite.",
     PYVC_TB + "; frame-library calls under assumed contracts; " + BOUNDED_TB, "contract-based deductive verification of the column-shaping glue (VCs from the real AST, z3) + run-time contracts over an enumerated scope", "§5 C08")
-add("C18", "other", HYB + "PROVED: SQL ORDER BY/DESC/LIMIT text (limit=0 included) and the arguments the Pandas and Polars order_rows steps hand to sort/head. BOUNDED: permutation / re-indexing invariance and order_rows sortedness+limit checked at run time on the real executors over the enumerated corpus (all permutations of ≤4 rows). Glue obligations (sort/limit arguments) are listed as not yet proved.",
-    BOUNDED_TB, "run-time contract over an enumerated small scope (bounded stand-in); no obligation proved for this property", "§5 C18")
-add("C19", "other", HYB + "PROVED: Pandas _table_step returns an owned copy on every path; no replace_leaves modifies the node it rebuilds (10 classes). BOUNDED: deep snapshots of caller frames (values, dtypes, columns, index) before/after eval/transform/ex/>> on Pandas and Polars over the enumerated corpus; repeatability. Ownership obligations not yet proved.",
-    BOUNDED_TB, "run-time contract over an enumerated small scope (bounded stand-in); no obligation proved for this property", "§5 C19")
+add("C18", "other", HYB + "PROVED: SQL ORDER BY/DESC/LIMIT text (limit=0 included) from SQLModel.order_to_near_sql and the arguments the Pandas and Polars order_rows steps hand to sort/head. BOUNDED: permutation / re-indexing invariance and order_rows sortedness+limit checked at run time on the real executors over the enumerated corpus (all permutations of ≤4 rows).",
+    PYVC_TB + "; sort_values / sort / head / iloc under assumed library contracts; " + BOUNDED_TB, "contract-based deductive verification of the glue / text-generation obligations (VCs from the real AST, z3) + run-time contracts over an enumerated scope for the engine-dependent part", "§5 C18")
+add("C19", "other", HYB + "PROVED: Pandas _table_step returns an owned copy on every path; cdata.RecordMap.transform never hands the caller's frame to anything that may modify it and returns a frame the caller did not supply; no replace_leaves modifies the node it rebuilds (10 classes). BOUNDED: deep snapshots of caller frames (values, dtypes, columns, index) before/after eval/transform/ex/>> on Pandas and Polars over the enumerated corpus; repeatability.",
+    PYVC_TB + "; pandas reset_index / loc under assumed library contracts; " + BOUNDED_TB, "contract-based deductive verification of the glue / text-generation obligations (VCs from the real AST, z3) + run-time contracts over an enumerated scope for the engine-dependent part", "§5 C19")
 add("C23", "proof", "every ensures clause and both loop invariants of connected_components are discharged by z3 for all edge lists (unbounded): the blocks are an equivalence containing every edge, finer than ANY equivalence containing the edges, each edge is labelled with the least vertex of its block, equal labels ⇔ same block. A bounded run against a BFS reference rides along.",
     PYVC_TB + "; vertices as mathematical integers; 'finest equivalence containing the edges = connected components' is a paper argument", "contract-based deductive verification: loop invariants + ghost equivalence, VCs from the real AST, z3", "§5 C23")
 add("C24", "proof", "16 targets of OrderedSet.py (constructor, add, discard, update, copy, len, contains, iter, <=, >=, ordered_union/intersect/diff) proved against the abstraction (member set, injective insertion stamps): 130 obligations incl. loop invariants with the ghost first-occurrence map. Inherited MutableSet mixins and __lt__/__gt__/union are only in the bounded ride-along (all op sequences ≤3/4).",
@@ -35,8 +35,8 @@ add("C05", "other", "bounded: every catalogued (method, backend) pair marked sup
     BOUNDED_TB + "; PostgreSQL column of the catalogue not executed", "run-time contract over an enumerated operand grid (bounded stand-in); no obligation proved", "§5 C05")
 add("C07", "other", HYB + "PROVED for all inputs: every replace_leaves (10 node classes) rebuilds its node from the replaced sources and every stored constructor argument, binding the builders' real signatures; BOUNDED: the four composition routes, associativity (by result) and dom/cod on the real code over enumerated pairs/triples.",
     PYVC_TB + "; " + BOUNDED_TB, "contract-based deductive verification of the rebuild obligations (VCs from the real AST, z3) + run-time contracts over an enumerated scope for the engine-dependent part", "§5 C07")
-add("C09", "other", HYB + "PROVED: Pandas _select_rows_step returns a fresh index-free copy of the selected rows (what a following windowed extend relies on). BOUNDED: row counts of project / windowed extend against distinct key tuples of the materialised input (null = a key of its own, empty inputs, outputs overwritten or dropped later) on Pandas, Polars, SQLite. The term-count obligation on project_to_near_sql is not built yet.",
-    BOUNDED_TB, "run-time contract over an enumerated small scope (bounded stand-in); no obligation proved", "§5 C09")
+add("C09", "other", HYB + "PROVED: SQLModel.project_to_near_sql names ALL group keys of the node in GROUP BY (quoted, in order, whatever later steps still use), every group key is a selected term, and there is no GROUP BY exactly without group keys; Pandas _select_rows_step returns a fresh index-free copy of the selected rows (what a following windowed extend relies on). BOUNDED: row counts of project / windowed extend against distinct key tuples of the materialised input (null = a key of its own, empty inputs, outputs overwritten or dropped later) on Pandas, Polars, SQLite.",
+    PYVC_TB + "; " + BOUNDED_TB, "contract-based deductive verification of the glue / text-generation obligations (VCs from the real AST, z3) + run-time contracts over an enumerated scope for the engine-dependent part", "§5 C09")
 add("C10", "proof", "for each of the 13 node classes: need_i(N,U) ⊆ columns_used_from_sources(U)[i] ⊆ columns(source_i) and one entry per source, for all nodes and all requested sets (77 obligations incl. two accumulation-loop invariants). The DAG-wide fixpoint and the tie of `need` to the executors are bounded (perturb every unreported column; narrow the descriptions).",
     PYVC_TB + "; need_i is a spec function from the operator documentation; constructor facts as preconditions", "contract-based deductive verification (VCs from the real AST, z3) with a bounded perturbation ride-along", "§5 C10")
 add("C11", "proof", "IFF characterisation of all 13 _equiv_nodes, of ViewRepresentation.__eq__ (loop + recursion through its own contract), RecordMap.__eq__, RecordSpecification.__eq__ against the reviewed semantic field sets (41 obligations); TableDescription.__eq__ and constant/order comparisons are recorded findings with native witnesses. Bounded all-pairs search for equal-but-different pipelines rides along.",
@@ -50,15 +50,15 @@ add("C14", "other", "bounded: all strings up to the stated length over a special
 add("C15", "exploration", "bounded stand-in only: renaming one column/table at a time to every internal name harvested from the current source, over the operator-pair corpus on Pandas, Polars, SQLite.",
     BOUNDED_TB, "run-time contract over an enumerated small scope (bounded stand-in, not proved)", "§5 C15")
 add("C16", "other", HYB + "PROVED: the SQLite right-join emulation hands the generic translator a LEFT join with sources AND keys swapped, left_is_first=False, caller's node untouched. BOUNDED: join type x key specification x all small table pairs (null and duplicate keys) on Pandas, Polars, SQLiteModel (emulated right/full) and native RIGHT/FULL text, against a reference join and a hand-written native SQL join. The key-swap obligation of the SQLite right-join emulation is not built as a proof (the defect itself was fixed).",
-    BOUNDED_TB, "run-time contract over an enumerated small scope (bounded stand-in); no obligation proved", "§5 C16")
+    PYVC_TB + "; " + BOUNDED_TB, "contract-based deductive verification of the glue / text-generation obligations (VCs from the real AST, z3) + run-time contracts over an enumerated scope for the engine-dependent part", "§5 C16")
 add("C17", "exploration", "bounded stand-in only: inverse / compose / >> laws and Pandas≡Polars for all small strict control tables and conforming data tables.",
     BOUNDED_TB, "run-time contract over an enumerated small scope (bounded stand-in, not proved)", "§5 C17")
 add("C20", "proof", "13 public methods of DataModelSpace and DBSpace proved against the keyed-store abstraction with postconditions over the WHOLE view, also on raising paths (96 obligations); DBSpace.execute onto an existing key is a recorded finding (region split: the residual obligation is discharged). All histories up to length 3/4 on both real spaces ride along.",
     PYVC_TB + "; database handle under ASSUMED keyed-store contracts; eval / CREATE TABLE AS as functions of the store contents", "contract-based deductive verification (whole-view postconditions, VCs from the real AST, z3) + bounded histories", "§5 C20")
 add("C21", "exploration", "bounded stand-in only: rank_to_average, last_observed_carried_forward, replicate_rows_query, def_multi_column_map against independent reference computations on all small tables, Pandas and SQLite.",
     BOUNDED_TB, "run-time contract over an enumerated small scope (bounded stand-in, not proved)", "§5 C21")
-add("C27", "other", "bounded: each window function x partition/order/reverse specification x all small tables with total orders against a reference window evaluator; backends per the live catalogue, Polars when it returns. Call-site argument obligations are not built.",
-    BOUNDED_TB, "run-time contract over an enumerated small scope (bounded stand-in); no obligation proved", "§5 C27")
+add("C27", "other", HYB + "PROVED (region contract on the real SQLModel.extend_to_near_sql): the OVER clause lists ALL partition columns and ALL order columns in the declared order with DESC exactly on the reversed ones, and is absent exactly for row-wise extends. BOUNDED: each window function x partition/order/reverse specification x all small tables with total orders against a reference window evaluator, and consecutive extends with permuted order priority; backends per the live catalogue, Polars when it returns. The Pandas / Polars window code is not under contract.",
+    PYVC_TB + "; string + and join uninterpreted; " + BOUNDED_TB, "contract-based deductive verification of the glue / text-generation obligations (VCs from the real AST, z3) + run-time contracts over an enumerated scope for the engine-dependent part", "§5 C27")
 
 add("C22", "other", "bounded: all specifications of depth <= 2 x argument/return values (scalars, pandas and polars frames with right/wrong/missing/extra/null columns): raises TypeError <=> the oracle conforms() says violated; switch off => never raises; result returned unchanged. No obligation proved for this property.",
     BOUNDED_TB, "run-time contract over an enumerated small scope (bounded stand-in); no obligation proved", "§5 C22")
